@@ -1186,6 +1186,16 @@ class Engine:
         full['cls'] = clsv
         return S.mk_block(**full)
 
+    def name_shape(self, meth, kind_t, idx_str_t):
+        """the term for a generated name: the literal pieces of the current source of NameGenerator.<meth> around str(kind) and
+        str(idx) (left-nested concatenation, as `+` is evaluated)"""
+        from fin.name_lemmas import shape_of
+        t = None
+        for p_ in shape_of(meth):
+            x = S.name_lit(p_[1]).t if p_[0] == 'lit' else kind_t if p_[0] == 'kind' else idx_str_t
+            t = x if t is None else S.concat_f(t, x)
+        return t
+
     def isa(self, v, c):
         """isinstance(<opaque object>, <class>): an uninterpreted relation between object identities and class names"""
         if isinstance(c, tuple) and c[0] == 'extref':
@@ -1452,25 +1462,19 @@ class Engine:
             if name == 'gen_index':
                 return S.vint(idx_of(nm.t))
             kind = E(1)
-            t = S.concat_f(S.concat_f(kind.t, S.name_lit('_block_').t), S.str_of_int(idx_of(nm.t)))
+            t = self.name_shape('new_block_name', kind.t, S.str_of_int(idx_of(nm.t)))
             return S.vbool(And(nm.t == t, idx_of(nm.t) >= 0))
         if name == 'gen_region_name':          # alias for functions that have a local called region_name
             name = 'region_name'
         if name in ('block_name', 'region_name', 'var_name'):
             kind, idx = E(0), E(1)
             cat = lambda a, b: S.concat_f(a, b)
-            if name == 'var_name':
-                t = cat(cat(cat(cat(S.name_lit('__scfg_').t, kind.t), S.name_lit('_var_').t), S.str_of_int(idx.t)), S.name_lit('__').t)
-            else:
-                t = cat(cat(kind.t, S.name_lit('_block_' if name == 'block_name' else '_region_').t), S.str_of_int(idx.t))
+            t = self.name_shape('new_' + name, kind.t, S.str_of_int(idx.t))
             # injectivity in (kind, index) for index >= 0: lemma L-inj, discharged by cvc5 on the real string theory
             # (fin/name_lemmas.py) for the shapes read from the source, under A-str
             kq = z3.Const('bn!k', S.sort_of(T_NAME))
             iq = z3.Int('bn!i')
-            if name == 'var_name':
-                pt = cat(cat(cat(cat(S.name_lit('__scfg_').t, kq), S.name_lit('_var_').t), S.str_of_int(iq)), S.name_lit('__').t)
-            else:
-                pt = cat(cat(kq, S.name_lit('_block_' if name == 'block_name' else '_region_').t), S.str_of_int(iq))
+            pt = self.name_shape('new_' + name, kq, S.str_of_int(iq))
             kind_of = ufun('kind_of!' + name, S.sort_of(T_NAME), S.sort_of(T_NAME))
             idx_of = ufun('idx_of!' + name, S.sort_of(T_NAME), z3.IntSort())
             self.add_axiom(('name-inj', name), ForAll([kq, iq], Implies(iq >= 0, And(kind_of(pt) == kq, idx_of(pt) == iq)), patterns=[pt]))
